@@ -7,6 +7,8 @@
    Proved for all grid points with |ordinate| <= 2^25 (coordinates converted exactly by ofZ):
      robust_grid_sound        INTERIOR (0) => exact in-circle determinant > 0;  EXTERIOR (2) => < 0
      robust_grid_cocircular   exact determinant = 0 => BOUNDARY (1)
+     robust_grid_complete     2^53 |determinant| > 12 * geos_band  =>  the answer is the exact one (the error band is at most
+                              12 * 2^-53 * (sum of absolute products), the implementation's deterror being ~9 * 2^-53 times it)
    (every difference, product and two-term sum of the expression is an integer of magnitude <= 2^53 and therefore exact; the two
     106-bit products and their difference are rounded, and rounding is monotone, so a decided sign is the true sign.)
    Refuted (witness inside the bound): the converse — robust_grid_incomplete_refuted: a site strictly inside the circumcircle
@@ -15,8 +17,10 @@
    INTERIOR, and which nevertheless has a site strictly inside a circumcircle. *)
 From Coq Require Import ZArith Reals Lia Lra Bool List Floats.SpecFloat.
 From Flocq Require Import Core.Core IEEE754.BinarySingleNaN.
-From GeosV Require Import Lib.KernelDefs Lib.GenPreludeF C16.Defs C16.B64Defs C16.InCircle.
-From GeosV Require Gen.TP_isInCircleRobust Gen.TP_isInCircleNonRobust.
+From Flocq Require Import Relative.
+From GeosV.Lib Require Import KernelDefs GenPreludeF.
+From GeosV.C16 Require Import Defs B64Defs InCircle.
+From GeosV.Gen Require TP_isInCircleRobust TP_isInCircleNonRobust.
 Import ListNotations.
 Local Open Scope Z_scope.
 
@@ -255,7 +259,7 @@ Proof.
 Qed.
 
 (* the error factor is a positive binary64 below 1 *)
-Lemma err_factor_fin : exists c, finr err_factor c /\ (0 < c <= 1)%R.
+Lemma err_factor_fin : exists c, finr err_factor c /\ (0 < c /\ c <= 1 /\ c <= 5066549568928536 * bpow radix2 (-102))%R.
 Proof.
   assert (E : err_factor = S754_finite false 5066549568928536 (-102)) by (vm_compute; reflexivity).
   pose (b := B754_finite false 5066549568928536 (-102) (eq_refl : bounded 53 1024 5066549568928536 (-102) = true) : bf).
@@ -307,11 +311,16 @@ Proof. intros x a k [Fx [Bx Hk]]. split; [ apply exz_abs, Fx | split; [ rewrite 
 Lemma zb_R : forall x z k, finzb x z k -> finr x (IZR z) /\ (Rabs (IZR z) <= bpow radix2 k)%R.
 Proof. intros x z k [F [B Hk]]. split; [ exact F | apply abs_IZR_le; assumption ]. Qed.
 
-Lemma det_b64_spec : forall q p r t, bounded25 q -> bounded25 p -> bounded25 r -> bounded25 t ->
-  exists dr er, finr (fst (det_b64 (fpt_of_pt q) (fpt_of_pt p) (fpt_of_pt r) (fpt_of_pt t))) dr
-             /\ finr (snd (det_b64 (fpt_of_pt q) (fpt_of_pt p) (fpt_of_pt r) (fpt_of_pt t))) er
-             /\ (0 <= er)%R
-             /\ ((dr < 0)%R -> geos_incircle q p r t < 0) /\ ((0 < dr)%R -> 0 < geos_incircle q p r t).
+Lemma abs_sub_tri : forall a b, Z.abs (a - b) <= Z.abs a + Z.abs b.
+Proof. intros a b. lia. Qed.
+Lemma det_b64_values : forall q p r t, bounded25 q -> bounded25 p -> bounded25 r -> bounded25 t ->
+  exists A B C D S1 S2 S3 S4 c,
+    geos_incircle q p r t = A * B - C * D /\ geos_band q p r t = S1 * S2 + S3 * S4
+    /\ (Z.abs A <= S1 /\ Z.abs B <= S2 /\ Z.abs C <= S3 /\ Z.abs D <= S4)
+    /\ (0 < c <= 5066549568928536 * bpow radix2 (-102))%R
+    /\ finr (fst (det_b64 (fpt_of_pt q) (fpt_of_pt p) (fpt_of_pt r) (fpt_of_pt t))) (rnd (rnd (IZR A * IZR B) - rnd (IZR C * IZR D)))
+    /\ finr (snd (det_b64 (fpt_of_pt q) (fpt_of_pt p) (fpt_of_pt r) (fpt_of_pt t)))
+            (rnd (rnd (rnd (IZR S1 * IZR S2) + rnd (IZR S3 * IZR S4)) * c)).
 Proof.
   intros [qx qy] [px py] [rx ry] [tx ty] [Hq1 Hq2] [Hp1 Hp2] [Hr1 Hr2] [Ht1 Ht2]. cbn [fst snd] in *.
   unfold det_b64, fpt_of_pt; cbn [f_x f_y fst snd]. cbv zeta.
@@ -350,17 +359,30 @@ Proof.
   destruct (rmul _ _ _ _ 53 53 FS1 FS2 ltac:(discriminate) ltac:(discriminate) ltac:(reflexivity) BS1 BS2) as [FE1 BE1].
   destruct (rmul _ _ _ _ 53 53 FS3 FS4 ltac:(discriminate) ltac:(discriminate) ltac:(reflexivity) BS3 BS4) as [FE2 BE2].
   destruct (radd _ _ _ _ (53 + 53) FE1 FE2 ltac:(discriminate) ltac:(reflexivity) BE1 BE2) as [FE BE].
-  destruct err_factor_fin as [c [Fc [Hc0 Hc1]]].
+  destruct err_factor_fin as [c [Fc [Hc0 [Hc1 Hc2]]]].
   assert (Bc : (Rabs c <= bpow radix2 0)%R) by (simpl; rewrite Rabs_pos_eq; lra).
   destruct (rmul _ _ _ _ (53 + 53 + 1) 0 FE Fc ltac:(discriminate) ltac:(discriminate) ltac:(reflexivity) BE Bc) as [Fe _].
+  exists A, B, C, D, S1, S2, S3, S4, c.
+  split; [ reflexivity | split; [ reflexivity | ] ].
+  split; [ subst A B C D S1 S2 S3 S4; repeat split; first [ apply Z.abs_triangle | apply abs_sub_tri ] | ].
+  split; [ split; [ exact Hc0 | exact Hc2 ] | split; [ exact Fd | exact Fe ] ].
+Qed.
+
+(* a decided sign is the true sign: monotonicity of rounding on the exactly known operands *)
+Lemma det_b64_spec : forall q p r t, bounded25 q -> bounded25 p -> bounded25 r -> bounded25 t ->
+  exists dr er, finr (fst (det_b64 (fpt_of_pt q) (fpt_of_pt p) (fpt_of_pt r) (fpt_of_pt t))) dr
+             /\ finr (snd (det_b64 (fpt_of_pt q) (fpt_of_pt p) (fpt_of_pt r) (fpt_of_pt t))) er
+             /\ (0 <= er)%R
+             /\ ((dr < 0)%R -> geos_incircle q p r t < 0) /\ ((0 < dr)%R -> 0 < geos_incircle q p r t).
+Proof.
+  intros q p r t Hq Hp Hr Ht.
+  destruct (det_b64_values q p r t Hq Hp Hr Ht) as (A & B & C & D & S1 & S2 & S3 & S4 & c & EG & ET & (HA & HB & HC & HD) & Hc & Fd & Fe).
   eexists. eexists. split; [ exact Fd | split; [ exact Fe | ] ].
-  assert (NN : forall a b, (0 <= IZR (Z.abs a + Z.abs b))%R).
-  { intros a b. apply IZR_le. apply Z.add_nonneg_nonneg; apply Z.abs_nonneg. }
+  assert (NN : forall z, 0 <= z -> (0 <= IZR z)%R) by (intros; apply IZR_le; assumption).
   split.
   { apply rnd_nonneg. apply Rmult_le_pos; [ | lra ]. apply rnd_nonneg.
-    apply Rplus_le_le_0_compat; apply rnd_nonneg; apply Rmult_le_pos; apply NN. }
-  assert (G : geos_incircle (qx, qy) (px, py) (rx, ry) (tx, ty) = A * B - C * D) by reflexivity.
-  rewrite G. split.
+    apply Rplus_le_le_0_compat; apply rnd_nonneg; apply Rmult_le_pos; apply NN; lia. }
+  rewrite EG. split.
   - intros Hd. apply rnd_neg_inv in Hd.
     assert (L : (IZR A * IZR B < IZR C * IZR D)%R).
     { destruct (Rlt_le_dec (IZR A * IZR B) (IZR C * IZR D)) as [L | L]; [ exact L | ]. apply rnd_le in L. lra. }
@@ -374,11 +396,139 @@ Proof.
     rewrite <- !mult_IZR in L. apply lt_IZR in L. apply Z.lt_0_sub. exact L.
 Qed.
 
-(* ------------------------------------------------------------------ the theorems *)
+(* ------------------------------------------------------------------ relative error: outside the band the answer is decided *)
+Local Open Scope R_scope.
+
+Definition u : R := bpow radix2 (-53).
+Lemma u_val : u = / 9007199254740992.
+Proof. unfold u. simpl. reflexivity. Qed.
+Lemma tiny_le_1 : bpow radix2 (-1022) <= 1.
+Proof. change 1 with (bpow radix2 0). apply bpow_le. lia. Qed.
+
+Lemma rel_err : forall x, (x = 0 \/ bpow radix2 (-1022) <= Rabs x) -> Rabs (rnd x - x) <= u * Rabs x.
+Proof.
+  intros x [-> | H].
+  - rewrite rnd_0, Rminus_0_r, Rabs_R0. lra.
+  - pose proof (relative_error_N_FLT radix2 (-1074) 53 (eq_refl : Prec_gt_0 53) (fun x => negb (Z.even x)) x) as R.
+    change (-1074 + 53 - 1)%Z with (-1022)%Z in R. specialize (R H).
+    assert (E : / 2 * bpow radix2 (- (53) + 1) = u) by (rewrite u_val; simpl; lra).
+    rewrite E in R. exact R.
+Qed.
+Lemma int_cases : forall z : Z, IZR z = 0 \/ bpow radix2 (-1022) <= Rabs (IZR z).
+Proof.
+  intros z. destruct (Z.eq_dec z 0) as [-> | N]; [ left; reflexivity | right ].
+  apply Rle_trans with (1 := tiny_le_1). rewrite <- abs_IZR. apply (IZR_le 1). lia.
+Qed.
+Lemma rnd_up : forall x, 0 <= x -> (x = 0 \/ bpow radix2 (-1022) <= x) -> rnd x <= x * (1 + u).
+Proof.
+  intros x Hx C. assert (C' : x = 0 \/ bpow radix2 (-1022) <= Rabs x) by (rewrite Rabs_pos_eq; assumption).
+  pose proof (rel_err x C') as R. rewrite (Rabs_pos_eq x Hx) in R. apply Rabs_le_inv in R. lra.
+Qed.
+Lemma rnd_down : forall x, 0 <= x -> (x = 0 \/ bpow radix2 (-1022) <= x) -> x * (1 - u) <= rnd x.
+Proof.
+  intros x Hx C. assert (C' : x = 0 \/ bpow radix2 (-1022) <= Rabs x) by (rewrite Rabs_pos_eq; assumption).
+  pose proof (rel_err x C') as R. rewrite (Rabs_pos_eq x Hx) in R. apply Rabs_le_inv in R. lra.
+Qed.
+Lemma rnd_opp : forall x, rnd (- x) = - rnd x.
+Proof. intros x. apply round_NE_opp. Qed.
+
+(* the real-number core: X, Y integers, T >= |X| + |Y|, T >= 1 integer *)
+Lemma decide_pos : forall (X Y T : Z) (c : R), (Z.abs X + Z.abs Y <= T)%Z -> (1 <= T)%Z ->
+  0 < c <= 5066549568928536 * bpow radix2 (-102) ->
+  forall e1 e2 : R, 0 <= e1 -> 0 <= e2 -> e1 + e2 = IZR T ->
+  (e1 = 0 \/ bpow radix2 (-1022) <= e1) -> (e2 = 0 \/ bpow radix2 (-1022) <= e2) ->
+  (12 * T < 2 ^ 53 * (X - Y))%Z ->
+  rnd (rnd (rnd e1 + rnd e2) * c) < rnd (rnd (IZR X) - rnd (IZR Y)).
+Proof.
+  intros X Y T c HT HT1 [Hc0 Hc1] e1 e2 He1 He2 Hsum C1 C2 H.
+  assert (TT : 1 <= IZR T) by (apply (IZR_le 1); exact HT1).
+  pose proof tiny_le_1 as Tiny.
+  (* lower bound on the rounded difference *)
+  pose proof (rel_err (IZR X) (int_cases X)) as RX. pose proof (rel_err (IZR Y) (int_cases Y)) as RY.
+  apply Rabs_le_inv in RX. apply Rabs_le_inv in RY.
+  assert (HXY : Rabs (IZR X) + Rabs (IZR Y) <= IZR T) by (rewrite <- !abs_IZR, <- plus_IZR; apply IZR_le; exact HT).
+  assert (HG : 12 * u * IZR T < IZR X - IZR Y).
+  { apply IZR_lt in H. rewrite !mult_IZR, minus_IZR in H. change (IZR (2 ^ 53)) with 9007199254740992 in H. rewrite u_val. lra. }
+  set (L := 11 * u * IZR T).
+  assert (L0 : 0 <= L) by (unfold L; rewrite u_val; lra).
+  assert (Ltiny : bpow radix2 (-1022) <= L).
+  { apply Rle_trans with (bpow radix2 (-53)); [ apply bpow_le; lia | ]. fold u. unfold L. rewrite u_val. lra. }
+  pose proof (rnd_down L L0 (or_intror Ltiny)) as D1.
+  assert (HL : L <= rnd (IZR X) - rnd (IZR Y)) by (unfold L; rewrite u_val in *; lra).
+  pose proof (rnd_le _ _ HL) as D2.
+  (* upper bound on the error term *)
+  pose proof (rnd_up e1 He1 C1) as U1. pose proof (rnd_up e2 He2 C2) as U2.
+  pose proof (rnd_nonneg e1 He1) as N1. pose proof (rnd_nonneg e2 He2) as N2.
+  assert (S1 : rnd e1 + rnd e2 <= IZR T * (1 + u)) by (rewrite u_val in *; lra).
+  assert (Mt : bpow radix2 (-1022) <= IZR T * (1 + u)) by (rewrite u_val; lra).
+  assert (Mt0 : 0 <= IZR T * (1 + u)) by (rewrite u_val; lra).
+  pose proof (rnd_le _ _ S1) as U3. pose proof (rnd_up (IZR T * (1 + u)) Mt0 (or_intror Mt)) as U4.
+  assert (E0 : 0 <= rnd (rnd e1 + rnd e2)) by (apply rnd_nonneg; lra).
+  assert (E1 : rnd (rnd e1 + rnd e2) <= IZR T * (1 + u) * (1 + u)) by lra.
+  assert (Bp : 0 < bpow radix2 (-102)) by apply bpow_gt_0.
+  set (K := 5066549568928536 * bpow radix2 (-102)) in *.
+  assert (K0 : 0 < K) by (unfold K; lra).
+  set (M := IZR T * (1 + u) * (1 + u) * K).
+  assert (TU : 1 <= IZR T * (1 + u) * (1 + u)) by (rewrite u_val; lra).
+  assert (S3 : rnd (rnd e1 + rnd e2) * c <= M).
+  { unfold M. apply Rle_trans with (rnd (rnd e1 + rnd e2) * K).
+    - apply Rmult_le_compat_l; [ exact E0 | lra ].
+    - apply Rmult_le_compat_r; [ lra | exact E1 ]. }
+  assert (M0 : 0 <= M) by (unfold M; apply Rmult_le_pos; lra).
+  assert (Mc : bpow radix2 (-1022) <= M).
+  { apply Rle_trans with (bpow radix2 (-102)); [ apply bpow_le; lia | ].
+    unfold M. apply Rle_trans with (1 * K); [ unfold K; lra | apply Rmult_le_compat_r; lra ]. }
+  pose proof (rnd_le _ _ S3) as U5. pose proof (rnd_up M M0 (or_intror Mc)) as U6.
+  assert (NUM : M * (1 + u) < L * (1 - u)).
+  { unfold M, L, K. change (bpow radix2 (-102)) with (/ 5070602400912917605986812821504). rewrite u_val. lra. }
+  lra.
+Qed.
+
+Local Open Scope Z_scope.
+
 Lemma robust_b64_pair : forall q p r t, robust_b64 q p r t =
   Z.b2z (gtb (fst (det_b64 q p r t)) (snd (det_b64 q p r t))) - Z.b2z (ltb (fst (det_b64 q p r t)) (neg (snd (det_b64 q p r t)))) + 1.
 Proof. intros q p r t. unfold robust_b64. destruct (det_b64 q p r t) as [d e]. reflexivity. Qed.
 
+Theorem robust_grid_complete : forall q p r t, bounded25 q -> bounded25 p -> bounded25 r -> bounded25 t ->
+  12 * geos_band q p r t < 2 ^ 53 * Z.abs (geos_incircle q p r t) ->
+  robust_grid q p r t = 1 + Z.sgn (geos_incircle q p r t).
+Proof.
+  intros q p r t Hq Hp Hr Ht H.
+  destruct (det_b64_values q p r t Hq Hp Hr Ht) as (A & B & C & D & S1 & S2 & S3 & S4 & c & EG & ET & (HA & HB & HC & HD) & Hc & Fd & Fe).
+  rewrite <- !mult_IZR in Fd, Fe.
+  unfold robust_grid. rewrite robust_b64_pair.
+  set (d := fst (det_b64 (fpt_of_pt q) (fpt_of_pt p) (fpt_of_pt r) (fpt_of_pt t))) in *.
+  set (e := snd (det_b64 (fpt_of_pt q) (fpt_of_pt p) (fpt_of_pt r) (fpt_of_pt t))) in *.
+  unfold gtb, ltb, neg. rewrite (finr_ltb _ _ _ _ Fe Fd), (finr_ltb _ _ _ _ Fd (finr_opp _ _ Fe)).
+  rewrite EG, ET in *. clear EG ET.
+  assert (N1 : 0 <= S1) by lia. assert (N2 : 0 <= S2) by lia. assert (N3 : 0 <= S3) by lia. assert (N4 : 0 <= S4) by lia.
+  assert (X1 : Z.abs (A * B) <= S1 * S2) by (rewrite Z.abs_mul; apply Z.mul_le_mono_nonneg; lia).
+  assert (Y1 : Z.abs (C * D) <= S3 * S4) by (rewrite Z.abs_mul; apply Z.mul_le_mono_nonneg; lia).
+  assert (P12 : 0 <= S1 * S2) by (apply Z.mul_nonneg_nonneg; assumption).
+  assert (P34 : 0 <= S3 * S4) by (apply Z.mul_nonneg_nonneg; assumption).
+  set (X := A * B) in *. set (Y := C * D) in *. set (T1 := S1 * S2) in *. set (T2 := S3 * S4) in *.
+  assert (T1R : (0 <= IZR T1)%R) by (apply IZR_le; exact P12). assert (T2R : (0 <= IZR T2)%R) by (apply IZR_le; exact P34).
+  assert (C1 : (IZR T1 = 0 \/ bpow radix2 (-1022) <= IZR T1)%R) by (destruct (int_cases T1) as [Z0 | Z0]; [ left; exact Z0 | right; rewrite Rabs_pos_eq in Z0; assumption ]).
+  assert (C2 : (IZR T2 = 0 \/ bpow radix2 (-1022) <= IZR T2)%R) by (destruct (int_cases T2) as [Z0 | Z0]; [ left; exact Z0 | right; rewrite Rabs_pos_eq in Z0; assumption ]).
+  fold X Y T1 T2.
+  assert (Er : (0 <= rnd (rnd (rnd (IZR T1) + rnd (IZR T2)) * c))%R).
+  { apply rnd_nonneg. apply Rmult_le_pos; [ | lra ]. apply rnd_nonneg.
+    apply Rplus_le_le_0_compat; apply rnd_nonneg; assumption. }
+  assert (TT : 1 <= T1 + T2) by lia.
+  destruct (Z.abs_spec (X - Y)) as [[G0 EA] | [G0 EA]]; rewrite EA in H.
+  - (* determinant positive *)
+    pose proof (decide_pos X Y (T1 + T2) c ltac:(lia) TT Hc (IZR T1) (IZR T2) T1R T2R ltac:(rewrite plus_IZR; reflexivity) C1 C2 H) as K.
+    assert (0 < X - Y) by lia.
+    rewrite Rlt_bool_true by exact K. rewrite Rlt_bool_false by lra. rewrite (Z.sgn_pos _ H0). reflexivity.
+  - (* determinant negative *)
+    assert (H' : 12 * (T1 + T2) < 2 ^ 53 * (Y - X)) by lia.
+    pose proof (decide_pos Y X (T1 + T2) c ltac:(lia) TT Hc (IZR T1) (IZR T2) T1R T2R ltac:(rewrite plus_IZR; reflexivity) C1 C2 H') as K.
+    replace (rnd (IZR Y) - rnd (IZR X))%R with (- (rnd (IZR X) - rnd (IZR Y)))%R in K by ring. rewrite rnd_opp in K.
+    rewrite Rlt_bool_false by lra. rewrite Rlt_bool_true by lra. rewrite (Z.sgn_neg _ G0). reflexivity.
+Qed.
+
+(* ------------------------------------------------------------------ the theorems *)
 Theorem robust_grid_sound : forall q p r t, bounded25 q -> bounded25 p -> bounded25 r -> bounded25 t ->
   (robust_grid q p r t = 0 -> 0 < incircle q p r t) /\ (robust_grid q p r t = 2 -> incircle q p r t < 0).
 Proof.
